@@ -11,6 +11,7 @@ import sys
 import time
 
 from .facts import VERIF, AnalysisBroken
+from . import facts as F
 
 KNOWN = os.path.join(VERIF, "known_findings.json")
 EVIDENCE = os.path.join(VERIF, "evidence")
@@ -154,6 +155,7 @@ class Ctx:
                 "units_analysed": [u["unit"] for u in self.facts.raw_units],
                 "functions_in_fact_base": len(self.facts.funcs),
                 "tree_hash": self.facts.tree_hash,
+                "source_root": F.REPO,
                 "known_findings_reported": [k for k, _ in knownhits],
                 "declined": declined or [],
                 "notes": self.notes,
